@@ -40,6 +40,22 @@ theorem ring_len_lt (s : S) (i : Nat) (a : Adder) (hS : GStruct s) (hR : GRing s
   simp at hlen
   omega
 
+/-- ring safety: never more unconsumed entries than shards -/
+theorem ring_len_le (s : S) (hS : GStruct s) (hR : GRing s) (hP : GPend s) : s.ring.length ≤ s.size := by
+  apply length_le_of_nodup_lt
+  · exact hR.r5
+  · intro x
+    by_cases hx : x < s.size
+    · have hg : ∃ g, s.getters[x]? = some g :=
+        ⟨s.getters[x]'(by have := hS.s1.2.2; omega), List.getElem?_eq_getElem (by have := hS.s1.2.2; omega)⟩
+      obtain ⟨g, hg⟩ := hg
+      have hp := hP.p1 x g hg
+      split at hp <;> omega
+    · have hr : s.ring.count x = 0 := by
+        apply List.count_eq_zero_of_not_mem
+        intro hm; have := hR.r5 x hm; omega
+      omega
+
 theorem ring_nonempty_at_rd (s : S) (hT : GTrig s) (hpc : s.wpc = .rd) : 0 < s.ring.length := by
   have h1 := hT.t1
   have h2 := hT.t2b (Or.inl hpc)
